@@ -35,9 +35,10 @@ type Proxy struct {
 }
 
 type command struct {
-	id  string
-	rpc *goatorepo.Rpc
-	err error
+	id     string
+	client *proxyClient // the connection reporting err
+	rpc    *goatorepo.Rpc
+	err    error
 }
 
 type proxyClient struct {
@@ -112,7 +113,11 @@ func (p *Proxy) serveClients(ctx context.Context) {
 				p.forwardRpc(cmd.id, cmd.rpc)
 			} else if cmd.err != nil {
 				p.mutex.Lock()
-				delete(p.clients, cmd.id)
+				// only forget the connection that failed: the peer may already
+				// have re-attached under the same name
+				if cur, ok := p.clients[cmd.id]; ok && cur == cmd.client {
+					delete(p.clients, cmd.id)
+				}
 				p.mutex.Unlock()
 				if p.clientDisconnect != nil {
 					p.clientDisconnect(cmd.id, cmd.err)
@@ -182,7 +187,7 @@ func (c *proxyClient) readLoop(ctx context.Context) error {
 	for {
 		rpc, err := c.conn.Read(ctx)
 		if err != nil {
-			c.toServer <- command{id: c.id, err: err}
+			c.toServer <- command{id: c.id, client: c, err: err}
 			return errors.Wrap(err, "failed to read from connection")
 		}
 
@@ -201,7 +206,7 @@ func (c *proxyClient) writeLoop(ctx context.Context) error {
 
 			err := c.conn.Write(ctx, rpc)
 			if err != nil {
-				c.toServer <- command{id: c.id, err: err}
+				c.toServer <- command{id: c.id, client: c, err: err}
 				return errors.Wrap(err, "failed to write to connection")
 			}
 		case <-ctx.Done():
@@ -222,7 +227,7 @@ func (c *proxyClient) connect(ctx context.Context, newConnection NewConnection) 
 
 	c.conn, err = newConnection(c.id)
 	if err != nil {
-		c.toServer <- command{id: c.id, err: err}
+		c.toServer <- command{id: c.id, client: c, err: err}
 		return
 	}
 
